@@ -26,6 +26,7 @@ import I3.Model.Codec
 import I3.Model.Limbs
 import I3.Model.Instances
 import I3.Model.BlakeStream
+import I3.Model.Receiver
 
 open I3
 
@@ -73,6 +74,24 @@ def checksum (m : Nat) (l : List Nat) : Nat :=
   (l.zipIdx.foldl (fun acc (v, i) => (acc + (i + 1) * v) % m) 0)
 
 -- ---------- spec-side references ----------
+/-- memoised reference parameters per width (forced on first use). -/
+def grainThunks : Array (Thunk Grain.Params) :=
+  (Array.range 18).map fun t => Thunk.mk fun _ => Grain.bn254Params t
+def grainParams (t : Nat) : Grain.Params :=
+  match grainThunks[t]? with
+  | some th => th.get
+  | none => Grain.bn254Params t
+def mdsThunks : Array (Thunk (List (List Nat))) :=
+  (Array.range 18).map fun t => Thunk.mk fun _ => Grain.mds q (grainParams t)
+
+/-- spec-side field configurations: nothing taken from I3.Gen. -/
+def specCfgOf (m limbs r : Nat) (nonres : Nat) : Model.FF.Cfg :=
+  let s := (m - 1) / 2 ^ r
+  let c0 : Model.FF.Cfg := { m := m, limbs := limbs, sqrtExp := (s - 1) / 2, legExp := (m - 1) / 2, gMont := 0, r := r, lexHalf := (m + 1) / 2 }
+  { c0 with gMont := c0.toMont (powMod nonres s m) }
+def specFF : Model.FF.Cfg := specCfgOf q 4 28 5
+def specFFG : Model.FF.Cfg := specCfgOf gp 1 32 7
+
 def specPoseidon (inp : List Int) (st : Int) (n : Int) : String :=
   let okv (v : Int) := decide (0 ≤ v) && decide (v < (q : Int))
   if inp.length = 0 ∨ inp.length > 16 then "ERR:badLen"
@@ -80,8 +99,10 @@ def specPoseidon (inp : List Int) (st : Int) (n : Int) : String :=
   else if n < 1 ∨ n > (inp.length + 1 : Nat) then "ERR:badNOuts"
   else if !(okv st) then "ERR:stateNotInField"
   else
-    let p := Grain.bn254Params (inp.length + 1)
-    showList toString ((Hades.poseidonBN254 p (st.toNat :: inp.map Int.toNat)).take n.toNat)
+    let t := inp.length + 1
+    let p := grainParams t
+    let mds := match mdsThunks[t]? with | some th => th.get | none => Grain.mds q p
+    showList toString ((Hades.permute q 5 p.t p.rf p.rp p.rc mds (st.toNat :: inp.map Int.toNat)).take n.toNat)
 
 def specMimc7 (x k : Nat) (n : Nat) : Nat :=
   -- circomlib: c_0 = 0, c_i = keccak chain over the 32-byte digest, t = (i=0 ? x+k : r+k+c_i), r = t^7; out r+k
@@ -161,7 +182,7 @@ def parseSrc? (kind payload : String) : Option Model.Codec.Src :=
 def showSig (s : Model.EdDSA.Sig) : String := s!"{showPt s.r8} {s.s}"
 
 
-def modelOp (op : String) (args : List String) : Option String := do
+def modelOp (op : String) (pat : String) (args : List String) : Option String := do
   let k := bjConsts
   match op, args with
   -- poseidon
@@ -207,13 +228,17 @@ def modelOp (op : String) (args : List String) : Option String := do
     let p := ((← parseInt? x1), (← parseInt? y1)); let r := ((← parseInt? x2), (← parseInt? y2))
     pure (showPt (Model.BabyJub.affine k (Model.BabyJub.addProj k (Model.BabyJub.projective k p) (Model.BabyJub.projective k r))))
   | "bj.mul", [s, x, y] => pure (showPt (Model.BabyJub.mul k (← parseInt? s) ((← parseInt? x), (← parseInt? y))))
+  | "bj.mulconst", [s] => pure (showPt (Model.BabyJub.mul k (← parseInt? s) k.b8))
+  | "bj.addconst", [] =>
+    pure (showPt (Model.BabyJub.affine k (Model.BabyJub.addProj k (Model.BabyJub.projective k k.b8) (Model.BabyJub.projective k k.b8))))
   | "bj.incurve", [x, y] => pure (showBool (Model.BabyJub.inCurve k ((← parseInt? x), (← parseInt? y))))
   | "bj.insubgroup", [x, y] => pure (showBool (Model.BabyJub.inSubGroup k ((← parseInt? x), (← parseInt? y))))
   | "bj.compress", [x, y] => pure (showBytes (Model.BabyJub.compress k ((← parseInt? x), (← parseInt? y))))
   | "bj.decompress", [b] =>
-    match Model.BabyJub.decompress k sqrtQ (← parseBytes? b) with
-    | .ok p => pure s!"{showPt p} recv={showPt p}"
-    | .error e => pure (showBJErr e)
+    let recv0 : Int × Int := if pat = "dirty" then (12345, 67890) else (0, 1)
+    match Model.Receiver.pointDecompress k sqrtQ recv0 (← parseBytes? b) with
+    | (recv, .ok p) => pure s!"{showPt p} recv={showPt recv}"
+    | (recv, .error e) => pure s!"{showBJErr e} recv={showPt recv}"
   | "bj.pfsy", [sign, y] =>
     match Model.BabyJub.pointFromSignAndY k sqrtQ (sign == "true") (← parseInt? y) with
     | .ok p => pure (showPt p)
@@ -224,9 +249,14 @@ def modelOp (op : String) (args : List String) : Option String := do
     pure s!"{showBool r.1} {r.2}"
   | "bj.coordsign", [c] => pure (showBool (Model.BabyJub.pointCoordSign k (← parseInt? c)))
   | "bj.mulrecv", [s, x, y] =>
-    let r := Model.BabyJub.mul k (← parseInt? s) ((← parseInt? x), (← parseInt? y))
-    pure s!"{showPt r} recv={showPt r}"
-  | "bj.set", [x, y] => pure s!"({x},{y}) recv=({x},{y})"
+    let q := ((← parseInt? x), (← parseInt? y))
+    let recv0 : Int × Int := if pat = "self" then q else (0, 1)
+    let r := Model.Receiver.pointMul k recv0 (← parseInt? s) q
+    pure s!"{showPt r.2} recv={showPt r.1}"
+  | "bj.set", [x, y] =>
+    let c := ((← parseInt? x), (← parseInt? y))
+    let r := Model.Receiver.pointSet (if pat = "self" then c else (0, 1)) c
+    pure s!"{showPt r.2} recv={showPt r.1}"
   | "bj.consts", [] =>
     pure s!"{k.a} {k.d} {k.order} {k.subOrder} {showPt k.b8} {k.q} {Gen.constants_Zero} {Gen.constants_One} {Gen.constants_MinusOne} {Gen.babyjub_A % k.q} {Gen.babyjub_D % k.q}"
   -- eddsa
@@ -254,8 +284,8 @@ def modelOp (op : String) (args : List String) : Option String := do
   | "ed.sigcompress", [rx, ry, s] =>
     pure (showBytes (Model.EdDSA.sigCompress k { r8 := ((← parseInt? rx), (← parseInt? ry)), s := (← parseInt? s) }))
   | "ed.sigdecompress", [b] =>
-    match Model.EdDSA.sigDecompress k sqrtQ (← parseBytes? b) with
-    | .ok s => pure s!"{showSig s} recv={showSig s}"
+    match Model.Receiver.sigDecompressRecv k sqrtQ { r8 := (0, 1), s := 0 } (← parseBytes? b) with
+    | .ok r => pure s!"{showSig r.2} recv={showSig r.1}"
     | .error e => pure (showEdErr e)
   | "ed.decompresssig", [t] =>
     match Model.Codec.decompressSigText k sqrtQ (bytesToChars (← parseBytes? t)) with
@@ -308,6 +338,16 @@ def modelOp (op : String) (args : List String) : Option String := do
     else if op.startsWith "ffgraw." then Model.Limbs.ffgRaw (op.drop 7).toString args
     else none
 
+/-- field ops against the spec-side configuration; `sqrt` only predicts whether a root exists. -/
+def specField (c : Model.FF.Cfg) (op : String) (args : List String) : Option String := do
+  match op, args with
+  | "sqrt", [x] =>
+    let x ← parseNat? x
+    if x % c.m = 0 then pure "0"
+    else if eulerMod x c.m = 1 then pure "root" else pure "nil"
+  | "one", [] | "modulus", [] => fieldOp c op args
+  | _, _ => fieldOp c op args
+
 /-- Independent reference for the same op ("-" when the model itself is the reference). -/
 def specOp (op : String) (args : List String) : Option String := do
   match op, args with
@@ -340,19 +380,19 @@ def specOp (op : String) (args : List String) : Option String := do
       | some hm =>
         if Ed.smul s.toNat Ed.B8 == Ed.add r (Ed.smul (8 * hm) a) then pure "ok" else pure "ERR:verifyFailed"
   | op, args =>
-    if op.startsWith "ff." ∨ op.startsWith "ffg." ∨ op.startsWith "ffraw." ∨ op.startsWith "ffgraw." then
-      -- reference for the limb kernels is the value-level model; for value-level ops it is itself
-      if op.startsWith "ffraw." then Model.Limbs.ffRawSpec (op.drop 6).toString args
-      else if op.startsWith "ffgraw." then Model.Limbs.ffgRawSpec (op.drop 7).toString args
-      else pure "-"
+    if op.startsWith "ffraw." then Model.Limbs.ffRawSpec (op.drop 6).toString args
+    else if op.startsWith "ffgraw." then Model.Limbs.ffgRawSpec (op.drop 7).toString args
+    else if op.startsWith "ff." then specField specFF (op.drop 3).toString args
+    else if op.startsWith "ffg." then specField specFFG (op.drop 4).toString args
     else pure "-"
 
 def step (mode : String) (line : String) : String :=
   match (line.trimAscii.toString.splitOn " ").filter (· ≠ "") with
   | [] => "bad-op"
   | op :: args =>
+    let pat := (op.splitOn "@").getD 1 ""
     let op := if op.startsWith "ffraw." || op.startsWith "ffgraw." then op else stripAt op
-    let r := if mode = "spec" then specOp op args else modelOp op args
+    let r := if mode = "spec" then specOp op args else modelOp op pat args
     r.getD "bad-op"
 
 partial def loop (mode : String) (hin : IO.FS.Stream) (hout : IO.FS.Stream) : IO Unit := do
